@@ -94,13 +94,15 @@ PROPS = {
                        "only at the end, no cursor operation is used outside its precondition (eatc never with a pushed-back char, drain never on an empty source, the byte-range slices and "
                        "the from_str_radix unwrap of the \\uXXXX check never panic), and the loop terminates. Every successfully returned Name / Int / Float / Comment / whitespace / punctuator / "
                        "spread token has the right kind for its text under the October 2021 lexical grammar and is maximal (Name not followed by NameContinue; numbers not followed by "
-                       "Digit, `.` or NameStart; comment up to the line terminator). "
+                       "Digit, `.` or NameStart; comment up to the line terminator). Every successfully returned StringValue token is either a quoted string of the grammar "
+                       "`\"` StringCharacter* `\"` (StringCharacter = any char but `\"`, `\\`, LF, CR | `\\u` + exactly 4 hex digits | `\\` + EscapedCharacter; written as a left-linear grammar "
+                       "q_open / q_body / q_backslash / q_unicode over the consumed prefix) or starts and ends with `\"\"\"`; Cursor::done returns Ok iff no error was recorded for the token. "
                        "Kani proves for every char value that the lookup tables (Punctuator kinds, NameStart) and the character classes equal the October 2021 tables; these are the contracts "
                        "the Verus unit assumes for lookup::*.",
         "assumptions": ["the ghost model of Cursor's primitives bump / eatc / current_str / prev_str / drain over CharIndices (lexer/cursor.rs; written from their bodies; validated only by the BOUNDED Kani harness c03_cursor_primitives_match_model: 7 source strings, all 4-call sequences)",
                         "`&self.source[a..b]` is rewritten to str_slice(self.source, a, b) whose precondition is 'a <= b, both char boundaries' (std semantics of str slicing, assumed)",
                         "u32::from_str_radix(s, 16) is Ok for 1..=8 hex digits (std, assumed)"],
-        "not_decided": ["StringValue tokens: only `starts and ends with a quote` is proved, not the StringCharacter / BlockStringCharacter grammar",
+        "not_decided": ["block strings: only the `\"\"\"` delimiters are proved, not the BlockStringCharacter grammar (where the closing delimiter may and may not appear)",
                         "the converse direction: an error is reported ONLY if the input is not a sequence of valid tokens (e.g. that `0123` MUST be an error is proved, that every error is justified is not)",
                         "byte offsets reported in Token::index / Error::index", "the documented exception for braced / surrogate-pair escapes"],
     },
@@ -139,7 +141,7 @@ PROPS = {
                        "in LimitTracker); termination (next_token, skip_ignored and the recursion of ty::parse decrease a lexer measure); recursion depth of the extracted recursive "
                        "functions is bounded by the recursion limit; recursion bookkeeping is balanced (document() asserts it is).",
         "assumptions": ['the assumed Lexer contract in the parser_core prelude (items carry the remaining text in order; a measure decreases per item; None only after the limit or at the end) -- C03, not proved', 'Name tokens produced by the lexer satisfy the Name grammar, so grammar::name::validate_name never reports (C03, not proved)', "the ~55 grammar functions that are not extracted keep the primitives' preconditions (they peek before they consume) and reach tokens only through the primitives (second half: frame check grammar_uses_primitives_only)", 'rowan GreenNodeBuilder: token() appends text, start/finish/wrap add none; Drop of NodeGuard has no spec', 'recursion limit < usize::MAX'],
-        "not_decided": ["the lexer state machine (Cursor::advance): panics / termination there are not covered",
+        "not_decided": ["the composition of the two units: parser_core ASSUMES a Lexer contract that the lexer unit PROVES for Cursor::advance (same statements, matched by reading, not machine-checked across the two files)",
                         "the ~55 grammar functions that are not extracted, and the closure combinators peek_while / peek_while_kind / parse_separated_list",
                         "rowan's own assertions (single root: was the panic fixed in d0c8925; not visible to a contract), actual stack size per frame", "apollo_compiler::parser wrappers"],
     },
